@@ -744,6 +744,22 @@ class Monitor:
                                              compare=mode, **detail),
                           **self.fields(helper, verdict, x, units, **kw))
             return False
+        # quantifier: "exact arithmetic for the value-preservation clause".  In the Fraction
+        # registry an exact magnitude in units with integer exponents and exactly defined scales
+        # must come back exact: a float here means float exponents or factors leaked in (and the
+        # next Fraction ** float can leave the float range, as to_preferred's did)
+        if self.reg == "fraction" and is_exact_mag(x):
+            ints_in = all(fexp(e).denominator == 1 for e in units.values())
+            clean = all(self.o.info(u)[0].exact for u in list(units) + list(runits))
+            if ints_in and int_exps and clean:
+                rec.count("exactness_checks")
+                float_exps = sorted(n for n, e in runits.items() if isinstance(e, float))
+                if float_exps or not is_exact_mag(rm):
+                    rec.violation("exactness-lost-in-exact-registry",
+                                  self.witness(x, units, result=mag_desc(rm), result_units=units_desc(runits),
+                                               float_exponents=float_exps),
+                                  **self.fields(helper, "value", x, units, **kw))
+                    return False
         # uncertainty travels with the value
         if hasattr(rm, "nominal_value") and hasattr(x, "nominal_value") and xn != 0 and rn != 0:
             if not (1e-140 < abs(rn) < 1e140 and 1e-140 < abs(xn) < 1e140):
